@@ -26,6 +26,10 @@ BUILT = {
          "TLC checks liveness (every behaviour ends with both roles finished / every pipeline stage exited) on the message-level model with faults and on the stage-level model of the sending pipeline with peer silence, write errors and read errors at every step (the pre-fix WaitGroup variant of the same model must and does violate it); bound to the code by making the peer fall silent or the connection fail after every message index of either direction, failing destination writes and shrinking the source mid-transfer in real transfers, and judging: time from the fault to each role's return, results, fail lines, and transfer goroutines still alive one time-out later.",
          "Trusts TLC, the harness wire, runtime.Stack for leftover workers; wall-clock bound = read time-out + 1.5 s + 8 s slack; the receiving pipeline is covered by the real runs and the message-level model, its stage-level model is not written yet; perturbed goroutine schedules come only from the 96 concurrently running shard processes.",
          "2/C11", "transfer"),
+ "C18": ("TLA+ spec Transfer.tla with pause/resume, keep-alive messages and a discrete read-timer clock checked exhaustively by TLC incl. liveness and an action property; real transfers paused before/after every protocol message validated against TransferObs.tla",
+         "Exhaustive TLC model check with up to two pause/continue cycles of the client in every state (protocols 3 and 4, both directions): a pause during which the peer never waits a full time-out completes with both sides ok, no file data is written while paused (action property), no side ever reports success for a wrong file, every behaviour terminates; bound to the code by pausing the real client before/after every protocol message of real transfers and continuing after 0.2x/0.5x/1.3x/2.5x the time-out (and three short cycles), judging results, destination equality, time to return and the number of DATA lines written while paused.",
+         "Trusts TLC and the harness wire; short pause = at most half the time-out (3 s); pause()/resume() are called directly instead of through the prompt UI; keep-alive lines are reported but not required.",
+         "2/C18", "transfer"),
 }
 checks = []
 for p in props:
